@@ -41,7 +41,9 @@ CONSTANTS
   Recipe,            \* which parameter recipe (cfg files take no tuples and no negative numbers)
   S, T,              \* scales (powers of two)
   RefSteps,          \* absolute refractory period in steps
-  LrPost, LrPre      \* learning-rate magnitudes in weight units: eta_post = LrPost > 0 (LTP), eta_pre = -LrPre < 0 (LTD)
+  LrPost, LrPre,     \* learning-rate magnitudes in weight units: eta_post = LrPost > 0 (LTP), eta_pre = -LrPre < 0 (LTD)
+  Clamp              \* "none" | "box": a Clamping hook on each connection's updater keeps the weights in [0, WBoxMax]
+                     \* (the quickstart's weight bounding: neural.Clamping(updater, "parent.weight", min, max))
 
 \* sizes of the input, of layer 1 and of layer 2
 N0 == 2
@@ -120,10 +122,14 @@ MStepNet(st, x) ==
                               !.hist = Append(@, [x |-> x, s1 |-> s1, s2 |-> s2, fresh |-> TRUE])]
   IN {Out(IF st.training THEN trained ELSE base, [t |-> "spikes", s1 |-> s1, s2 |-> s2])}
 
-\* connection.update() on both connections: w := w + pos - neg, parts cleared
+\* the updater's post-hook: runs after every call of the updater (connection.update() and trainer.update() alike)
+WBoxMax == 16
+Box(w) == IF Clamp = "box" THEN (IF w < 0 THEN 0 ELSE IF w > WBoxMax * S THEN WBoxMax * S ELSE w) ELSE w
+
+\* connection.update() on both connections: w := w + pos - neg (then the hook), parts cleared
 MUpdate(st) ==
-  {Out([st EXCEPT !.w1 = [j \in I1 |-> [i \in I0 |-> @[j][i] + st.p1[j][i] - st.q1[j][i]]],
-                  !.w2 = [k \in I2 |-> [j \in I1 |-> @[k][j] + st.p2[k][j] - st.q2[k][j]]],
+  {Out([st EXCEPT !.w1 = [j \in I1 |-> [i \in I0 |-> Box(@[j][i] + st.p1[j][i] - st.q1[j][i])]],
+                  !.w2 = [k \in I2 |-> [j \in I1 |-> Box(@[k][j] + st.p2[k][j] - st.q2[k][j])]],
                   !.p1 = Zero(I1, I0), !.q1 = Zero(I1, I0), !.p2 = Zero(I2, I1), !.q2 = Zero(I2, I1),
                   \* history variables of the Abs layer: nothing recorded so far is pending any more
                   !.hist = [m \in DOMAIN @ |-> [@[m] EXCEPT !.fresh = FALSE]],
@@ -176,8 +182,8 @@ MClear(st) ==
 \* Named deviation TrainerUpdateKeepsParts: CellTrainer.update() calls every updater once but - unlike
 \* connection.update() - does not clear it, so the same parts stay pending (and would be applied again)
 MTrainerUpdate(st) ==
-  {Out([st EXCEPT !.w1 = [j \in I1 |-> [i \in I0 |-> @[j][i] + st.p1[j][i] - st.q1[j][i]]],
-                  !.w2 = [k \in I2 |-> [j \in I1 |-> @[k][j] + st.p2[k][j] - st.q2[k][j]]]],
+  {Out([st EXCEPT !.w1 = [j \in I1 |-> [i \in I0 |-> Box(@[j][i] + st.p1[j][i] - st.q1[j][i])]],
+                  !.w2 = [k \in I2 |-> [j \in I1 |-> Box(@[k][j] + st.p2[k][j] - st.q2[k][j])]]],
        [t |-> "ok"])}
 
 MApply(st, o) ==
